@@ -8,6 +8,8 @@ import Driver.OpsOrder
 import Driver.OpsIRI
 import Driver.OpsColl
 import Driver.OpsRecip
+import Driver.Value
+import Driver.OpsClean
 open Lean Driver
 
 def dispatch (op : String) (j : Json) : R Json :=
@@ -19,6 +21,8 @@ def dispatch (op : String) (j : Json) : R Json :=
   | "irisContains" => opIrisContains j
   | "coll" => opColl j
   | "recipients" => opRecipients j
+  | "echo" => opEcho j
+  | "clean" => opClean j
   | _ => .error s!"unknown op {op}"
 
 partial def loop (h : IO.FS.Stream) (out : IO.FS.Stream) : IO Unit := do
